@@ -176,9 +176,12 @@ Lemma gen_enter_equiv clk w t :
   gen_enter clk (enc_state (w_state w)) (w_started w) (w_stopped w) (w_splits w) (w_duration w) t = enc_out (enter clk w t).
 Proof. by_cases w. Qed.
 
-Lemma gen_exit_equiv clk w t :
-  gen_exit clk (enc_state (w_state w)) (w_started w) (w_stopped w) (w_splits w) (w_duration w) t = enc_out (exit_ clk w t).
-Proof. by_cases w. Qed.
+(* whatever the exception triple is: the arguments are ignored, the return value is None (never True: the
+   exception of the with-body is not suppressed) *)
+Lemma gen_exit_equiv clk w t type value traceback :
+  gen_exit clk (enc_state (w_state w)) (w_started w) (w_stopped w) (w_splits w) (w_duration w) t type value traceback
+  = (enc (fst (exit_ clk w t)), match snd (exit_ clk w t) with Ok _ => Ok None | Exn e => Exn e end).
+Proof. destruct type, value, traceback; by_cases w. Qed.
 
 Local Transparent delta.
 
@@ -560,11 +563,11 @@ Qed.
 Lemma legality_table w m rn :
   map (fun o => legal o w) (all_ops m rn) =
   match w_state w with
-  | SNone =>    [true; false; false; true; false; false; false; false; true; true; true; true; true]
+  | SNone =>    [true; false; false; true; false; false; false; false; true; true; true; true; true; true]
   | SStarted => [true; true;  false; true; true;  true;
                  match w_duration w with Some _ => true | None => rn end;
-                                                                true;  true; true; true; true; true]
-  | SStopped => [true; true;  true;  true; false; true;  false; true;  true; true; true; true; true]
+                                                                true;  true; true; true; true; true; true]
+  | SStopped => [true; true;  true;  true; false; true;  false; true;  true; true; true; true; true; true]
   end.
 Proof. wcases w; reflexivity. Qed.
 
@@ -615,6 +618,53 @@ Lemma state_transitions o w t :
   else match o, w_state w with OResume, SStopped => SStarted | _, s => s end.
 Proof.
   destruct o; try destruct return_none; wcases w; try destruct sa; try destruct so; try destruct sd; reflexivity.
+Qed.
+
+(* ---- the context-manager protocol ---- *)
+
+(* __exit__ with or without an exception triple: never raises, returns None (the exception of the body
+   propagates), stops a running watch at the reading it takes and leaves any other watch as it is *)
+Lemma exit_spec exc w t :
+  step clk (OExit exc) w t =
+  (match w_state w with
+   | SStarted => (mkWatch SStopped (w_started w) (Some (clk t)) (w_splits w) (w_duration w), S t)
+   | _ => (w, t)
+   end, Ok VNone).
+Proof. wcases w; reflexivity. Qed.
+
+Lemma step_not_none o w t : w_state w <> SNone -> w_state (fst (fst (step clk o w t))) <> SNone.
+Proof.
+  intro H. rewrite state_transitions.
+  destruct (effective_restart o w); [discriminate|]. destruct (effective_stop o w); [discriminate|].
+  destruct o; try exact H; destruct (w_state w); try exact H; discriminate.
+Qed.
+
+Lemma final_not_none ops : forall w t, w_state w <> SNone -> w_state (fst (final clk ops w t)) <> SNone.
+Proof.
+  induction ops as [|o r IH]; intros w t H; [exact H|].
+  cbn [final]. pose proof (step_not_none o w t H) as HS.
+  destruct (step clk o w t) as [[w' t'] res]. apply IH, HS.
+Qed.
+
+(* after  with sw: body [raise X]  the watch is stopped, whatever the body did and whether or not it raised;
+   if the body left it running, _stopped_at is the reading taken by __exit__ *)
+Lemma with_block_stops body exc w0 t0 :
+  let c1 := final clk (OEnter :: body) w0 t0 in
+  let c2 := final clk (with_block body exc) w0 t0 in
+  w_state (fst c2) = SStopped /\
+  (w_state (fst c1) = SStarted -> w_stopped (fst c2) = Some (clk (snd c1)) /\ snd c2 = S (snd c1)) /\
+  (w_state (fst c1) = SStopped -> c2 = c1).
+Proof.
+  intros c1 c2. subst c2. unfold with_block.
+  change (OEnter :: body ++ [OExit exc]) with ((OEnter :: body) ++ [OExit exc]).
+  rewrite final_app. fold c1. cbn [final]. rewrite exit_spec.
+  assert (HN : w_state (fst c1) <> SNone).
+  { subst c1. destruct w0 as [[| |] a b l d]; cbn [final step enter start wrap w_state w_duration];
+      apply final_not_none; cbn [w_state]; discriminate. }
+  destruct c1 as [w1 t1]. cbn [fst snd] in *.
+  destruct (w_state w1) eqn:E; [congruence| |]; cbn [fst snd w_state w_stopped].
+  - split; [reflexivity|]. split; [intros _; split; reflexivity|discriminate].
+  - split; [exact E|]. split; [discriminate|reflexivity].
 Qed.
 
 (* ---- splits ---- *)
@@ -778,7 +828,7 @@ Qed.
 (* illegal calls exist in every state; on a fresh watch: stop, resume, split, elapsed, leftover, expired *)
 Example ex_illegal :
   map (fun o => legal o ex_watch) (all_ops None false) =
-  [true; false; false; true; false; false; false; false; true; true; true; true; true] /\
+  [true; false; false; true; false; false; false; false; true; true; true; true; true; true] /\
   step ex_clk OResume ex_watch 0 = ((ex_watch, 0%nat), Exn RuntimeError).
 Proof. split; reflexivity. Qed.
 
